@@ -43,6 +43,9 @@ type attrM struct {
 	T     *typeM   `json:"t"`
 	Desc  string   `json:"desc,omitempty"`
 	Meta  []metaKV `json:"meta,omitempty"`
+	// EmptyMeta: the attribute carries a non-nil metadata map without entries
+	// (what is left after the only key was deleted, e.g. by RemovePkgPath)
+	EmptyMeta bool `json:"empty_meta,omitempty"`
 	Val   *valM    `json:"val,omitempty"`
 	Def   any      `json:"def,omitempty"`
 	Ex    int      `json:"ex,omitempty"`   // number of user examples
@@ -328,6 +331,9 @@ func (c *genCtx) decorate(a *attrM, isField bool) *attrM {
 		}
 	}
 	a.Meta = dedupMeta(a.Meta)
+	if len(a.Meta) == 0 && rapid.IntRange(0, 9).Draw(t, "emptyMeta") == 0 {
+		a.EmptyMeta = true
+	}
 	if rapid.IntRange(0, 99).Draw(t, "hasVal") < 25 {
 		v := &valM{}
 		switch rapid.IntRange(0, 6).Draw(t, "valKind") {
@@ -621,6 +627,9 @@ func (b *builtG) attr(a *attrM) *expr.AttributeExpr {
 		return nil
 	}
 	out := &expr.AttributeExpr{Type: b.typ(a.T), Description: a.Desc, DefaultValue: a.Def}
+	if len(a.Meta) == 0 && a.EmptyMeta {
+		out.Meta = expr.MetaExpr{}
+	}
 	if len(a.Meta) > 0 {
 		out.Meta = expr.MetaExpr{}
 		for _, kv := range a.Meta {
